@@ -677,6 +677,28 @@ func (e *Engine) exec(st *State, fr *frame, b, pred *ssa.BasicBlock, idx, depth 
 					}
 					break
 				}
+				// a condition the path has already decided (the same comparison
+				// of the same values) does not fork again
+				if !isLoopHeader(b) {
+					ck, nk := c.Key(), c.Not().Key()
+					decided := 0
+					for _, pc := range st.conds {
+						switch pc.Key() {
+						case ck:
+							decided = 1
+						case nk:
+							decided = -1
+						}
+					}
+					if decided != 0 {
+						if decided > 0 {
+							next = b.Succs[0]
+						} else {
+							next = b.Succs[1]
+						}
+						break
+					}
+				}
 				// symbolic branch: a loop header is summarised, anything else forks
 				if isLoopHeader(b) {
 					if outs, ok := e.summariseLoop(st, fr, b, in, c, depth); ok {
@@ -1534,6 +1556,10 @@ func (e *Engine) compare(op token.Token, x, y Val, xt types.Type) (Val, string) 
 	case *Opaque:
 		if b, ok := y.(*Opaque); ok && a.Key == b.Key {
 			return boolConst(op == token.EQL), ""
+		}
+		if b, ok := y.(*ErrVal); ok && b.IsNil && a.Key != "nil" && (strings.Contains(a.Key, "Err") || strings.Contains(a.Key, "EOF")) && (op == token.EQL || op == token.NEQ) {
+			// a sentinel error variable is never nil
+			return boolConst(op == token.NEQ), ""
 		}
 	case *SliceVal:
 		// comparison with nil
